@@ -249,6 +249,13 @@ def macAvgPool (p : Padding) (h w ph pw sh sw c : Nat) : Nat :=
 /-- global average pooling: a single output position whose window is the whole map -/
 def macGlobalAvgPool (h w c : Nat) : Nat := (poolNest [0] [0] c h w).length
 def macMerge (shape : List Nat) : Nat := (mergeNest shape).length
+/-- element-wise merge (Add / Multiply / …) of `n` operand tensors of one `shape`: the running
+    result is combined with every operand after the first, element by element — one scalar
+    operation per (extra operand `j = 1 … n-1`, element).  `operation_count` reports the per-operand
+    slice `macMerge shape`; `energy_estimate` multiplies by `n - 1` (Model.Energy `opEnergy .merge`). -/
+def mergeNaryNest (n : Nat) (shape : List Nat) : List (Nat × Nat) :=
+  (List.range (n - 1)).flatMap fun j => (mergeNest shape).map fun e => (j + 1, e)
+def opsMergeNary (n : Nat) (shape : List Nat) : Nat := (mergeNaryNest n shape).length
 /-- separable convolution = depthwise (multiplier `dm`) followed by a 1×1 convolution -/
 def macSepConv2d (p : Padding) (h w kh kw sh sw dh dw ci dm co : Nat) : Nat :=
   macDepthwise p h w kh kw sh sw dh dw ci dm
